@@ -193,8 +193,13 @@ def _one_case(rng, k, force=None):
     elif exact:
         case["aff"] = [enc(rng.choice([Fraction(1, 4), Fraction(1, 2), Fraction(2), Fraction(3), Fraction(3, 2), Fraction(8)])),
                        enc(Fraction(rng.randint(-20, 20), 4))]
+        r_ = rng.random()
+        if r_ < 0.15:      # a tiny scale (exact: a power of two): replicates 1e-9 apart are still different replicates
+            case["aff"] = [enc(Fraction(1, 2 ** rng.choice([30, 40]))), enc(Fraction(0))]
+        elif r_ < 0.3:     # a large offset (exact for the small dyadic replicates of this stream)
+            case["aff"] = [enc(Fraction(1)), enc(Fraction(2 ** rng.choice([20, 24])))]
     else:
-        case["aff"] = [enc(rng.choice([Fraction(2), Fraction(1, 2), Fraction(4)])), enc(Fraction(0))]
+        case["aff"] = [enc(rng.choice([Fraction(2), Fraction(1, 2), Fraction(4), Fraction(1, 2 ** 30)])), enc(Fraction(0))]
     if a_main is not None:
         bigger = [a for a in (DY_ALPHAS + [Fraction(x) for x in ANY_ALPHAS]) if a > a_main]
         case["alpha2"] = enc(rng.choice(bigger)) if bigger else None
